@@ -3,48 +3,57 @@
 From GC Require Import Base Model_Expr Model_BoolSimp Proofs_Expr Proofs_BoolSimp Proofs_Rewrites.
 Open Scope string_scope.
 
-(* The full statement  well_typed e -> eval env (simplify_bool e) = eval env e  is FALSE for the
-   unchanged code: two independent counterexamples (both replayed on compiled Go by the oracle). *)
-Theorem C10_bool_simplify_incdec_float_refuted :
-  exists en e, env_ok en /\ typeof e = Some TBool /\
-    print_expr e = "x+1 > y" /\ print_expr (simplify_bool e) = "x >= y" /\
-    eval en e = Some (RVal (VBool true), []) /\ eval en (simplify_bool e) = Some (RVal (VBool false), []).
-Proof. exact remove_incdec_float_refuted. Qed.
-Print Assumptions C10_bool_simplify_incdec_float_refuted.
-
-Theorem C10_bool_simplify_octal_bound_refuted :
-  exists en e, env_ok en /\ typeof e = Some TBool /\
-    print_expr e = "x > 8 && x < 010" /\ print_expr (simplify_bool e) = "x == 9" /\
-    eval en e = Some (RVal (VBool false), []) /\ eval en (simplify_bool e) = Some (RVal (VBool true), []).
-Proof. exact fold_ranges_octal_refuted. Qed.
-Print Assumptions C10_bool_simplify_octal_bound_refuted.
-
-Theorem C10_bool_simplify_preserves_refuted :
-  ~ (forall en e, env_ok en -> well_typed e -> eval en (simplify_bool e) = eval en e).
-Proof. exact bool_simplify_preserves_refuted. Qed.
-Print Assumptions C10_bool_simplify_preserves_refuted.
-
-(* Under exactly the two guards the code lacks — removeIncDec never fires on float operands, and every
-   literal bound that foldRanges folds is one whose base-10 reading is its Go value — the suggestion
-   computes the same result and performs the same calls in the same order, for every environment
-   (all values of all variables, all behaviours of the opaque functions), NaN and infinities included. *)
-Theorem C10_bool_simplify_preserves_partial : forall en e,
-  env_ok en -> well_typed e -> no_float_incdec e = true -> decimal_bounds e = true ->
-  eval en (simplify_bool e) = eval en e.
-Proof. exact bool_simplify_preserves_partial. Qed.
-Print Assumptions C10_bool_simplify_preserves_partial.
+(* The full statement, for the checker as it stands in /repo (after the fixes 546af6d and 7e0e8ca):
+   for every environment (all values of all variables, NaN and infinities included, all behaviours of the
+   opaque functions) the suggestion computes the same result and performs the same calls in the same order. *)
+Theorem C10_bool_simplify_preserves : forall en e,
+  env_ok en -> well_typed e -> eval en (simplify_bool e) = eval en e.
+Proof. exact bool_simplify_preserves. Qed.
+Print Assumptions C10_bool_simplify_preserves.
 
 (* the same from any earlier history (the expression may be evaluated in the middle of a program) *)
-Theorem C10_bool_simplify_preserves_partial_any_history : forall en e,
-  env_ok en -> well_typed e -> no_float_incdec e = true -> decimal_bounds e = true ->
-  forall h, evalS en (simplify_bool e) h = evalS en e h.
-Proof. exact bool_simplify_preserves_partial_S. Qed.
-Print Assumptions C10_bool_simplify_preserves_partial_any_history.
+Theorem C10_bool_simplify_preserves_any_history : forall en e,
+  env_ok en -> well_typed e -> forall h, evalS en (simplify_bool e) h = evalS en e h.
+Proof. exact bool_simplify_preserves_S. Qed.
+Print Assumptions C10_bool_simplify_preserves_any_history.
 
-Theorem C10_bool_simplify_keeps_type : forall e t,
-  typeof e = Some t -> no_float_incdec e = true -> decimal_bounds e = true -> typeof (simplify_bool e) = Some t.
+Theorem C10_bool_simplify_keeps_type : forall e t, typeof e = Some t -> typeof (simplify_bool e) = Some t.
 Proof. exact bool_simplify_keeps_type. Qed.
 Print Assumptions C10_bool_simplify_keeps_type.
+
+(* ---- the checker before the fixes ([simplify_bool_prefix]): the statement was false, twice ---- *)
+Theorem C10_bool_simplify_prefix_incdec_float_refuted :
+  exists en e, env_ok en /\ typeof e = Some TBool /\
+    print_expr e = "x+1 > y" /\ print_expr (simplify_bool_prefix e) = "x >= y" /\
+    eval en e = Some (RVal (VBool true), []) /\ eval en (simplify_bool_prefix e) = Some (RVal (VBool false), []).
+Proof. exact prefix_remove_incdec_float_refuted. Qed.
+Print Assumptions C10_bool_simplify_prefix_incdec_float_refuted.
+
+Theorem C10_bool_simplify_prefix_octal_bound_refuted :
+  exists en e, env_ok en /\ typeof e = Some TBool /\
+    print_expr e = "x > 8 && x < 010" /\ print_expr (simplify_bool_prefix e) = "x == 9" /\
+    eval en e = Some (RVal (VBool false), []) /\ eval en (simplify_bool_prefix e) = Some (RVal (VBool true), []).
+Proof. exact prefix_fold_ranges_octal_refuted. Qed.
+Print Assumptions C10_bool_simplify_prefix_octal_bound_refuted.
+
+Theorem C10_bool_simplify_prefix_preserves_refuted :
+  ~ (forall en e, env_ok en -> well_typed e -> eval en (simplify_bool_prefix e) = eval en e).
+Proof. exact bool_simplify_prefix_preserves_refuted. Qed.
+Print Assumptions C10_bool_simplify_prefix_preserves_refuted.
+
+(* ... and held exactly under the two guards that the fixes added *)
+Theorem C10_bool_simplify_prefix_preserves_partial : forall en e,
+  env_ok en -> well_typed e -> no_float_incdec e = true -> decimal_bounds e = true ->
+  eval en (simplify_bool_prefix e) = eval en e.
+Proof. exact bool_simplify_prefix_preserves_partial. Qed.
+Print Assumptions C10_bool_simplify_prefix_preserves_partial.
+
+(* the current checker leaves both refuting expressions alone, and folds hexadecimal bounds correctly *)
+Example C10_fixed_witnesses_unchanged :
+  simplify_bool w_incdec = w_incdec /\ check_expr w_incdec = None /\
+  simplify_bool w_octal = w_octal /\ check_expr w_octal = None /\
+  print_expr (simplify_bool (EBinary OLAnd (EBinary OGt (EIdent "x" TInt) (ELit LInt "010" TInt)) (EBinary OLt (EIdent "x" TInt) (ELit LInt "0xA" TInt)))) = "x == 9".
+Proof. exact fixed_witnesses_unchanged. Qed.
 
 (* per-rule facts *)
 Theorem C10_invert_comparison_needs_float_guard :
@@ -79,6 +88,7 @@ Print Assumptions C10_fold_ranges_int_or.
 Example C10_guards_satisfiable :
   typeof w_all_rules = Some TBool /\ no_float_incdec w_all_rules = true /\ decimal_bounds w_all_rules = true /\
   print_expr w_all_rules = "!(x < 3) && x+1 > y || (x > 1 && x < 3 || ((x > y || x == y) || !!(!k) == !l))" /\
+  print_expr (simplify_bool_prefix w_all_rules) = "x >= 3 && x >= y || (x == 2 || ((x >= y) || k == l))" /\
   print_expr (simplify_bool w_all_rules) = "x >= 3 && x >= y || (x == 2 || ((x >= y) || k == l))".
 Proof. exact guards_satisfiable. Qed.
 
